@@ -20,7 +20,7 @@ from .model import AnalysisError, FuncInfo, Project, self_attr
 MUT = {'append': +1, 'insert': +1, 'pop': -1, 'remove': -1}
 NONE = ('const', None)
 RAISE = ('raise',)
-SNAP_KINDS = {'op', 'yield', 'call', 'return', 'backedge', 'loopcut', 'raise', 'spawn', 'pcall', 'succeed', 'cond', 'enter', 'leave'}
+SNAP_KINDS = {'loophead', 'op', 'yield', 'call', 'return', 'backedge', 'loopcut', 'raise', 'spawn', 'pcall', 'succeed', 'cond', 'enter', 'leave'}
 
 
 class Ev:
@@ -731,7 +731,7 @@ class Explorer:
                 if k.arg in params:
                     s.env[k.arg] = v
             s.frames.append(fi)
-            self.emit(s, 'enter', node, name=fi.name, key=fi.key)
+            self.emit(s, 'enter', node, name=fi.name, key=fi.key, args=tuple(vals), arg0=vals[0] if vals else None)
             for s2, status in self.block(fi.node.body, s):
                 self.emit(s2, 'leave', node, name=fi.name, status=status if isinstance(status, str) else status[0])
                 s2.frames.pop()
@@ -1155,7 +1155,8 @@ class Explorer:
                         self.emit(s2, 'backedge' if proc else 'loopcut', n, loop_line=n.lineno)
                         res.append((s2, 'backedge' if proc else 'loopcut'))
                         continue
-                    self.emit(s2, 'loophead', n, loop_line=n.lineno, iteration=i)
+                    self.emit(s2, 'loophead', n, loop_line=n.lineno, iteration=i,
+                              locals={k: v for k, v in s2.env.items() if v[0] in ('lin', 'const')})
                     for s3, status in self.block(n.body, s2):
                         if status in ('normal', 'continue'):
                             nxt.append(s3)
